@@ -1,4 +1,7 @@
 import Hostd.Drive.Chain
 open Hostd
-def main : IO Unit := do
-  Proto.loop (← IO.getStdin) ({} : Drive.Chain.DState) Drive.Chain.step Drive.Chain.stats
+/-- `drv_chain [focus]`: with a focus prefix (`c01/`, `c05/`, `c06/`) only that property's flags are
+reported and only they end the checking of a history. -/
+def main (args : List String) : IO Unit := do
+  let focus := args.headD ""
+  Proto.loop (← IO.getStdin) ({ focus } : Drive.Chain.DState) Drive.Chain.step Drive.Chain.stats
